@@ -317,8 +317,13 @@ def g_spoil(draw: Any, tree: list[Any]) -> tuple[list[Any], str]:
     if kind == "fn_arg_dim":
         f = ["q", ["n", draw(st.sampled_from(["1", "2", "1/2"]))], draw(st.sampled_from(
             ["meter", "second", "kilogram", "newton", "kelvin"]))]
-        name = draw(st.sampled_from(["exp", "sin", "cos", "log"]))
+        name = draw(st.sampled_from(["exp", "sin", "cos", "log", "atan2", "besselj", "atan2"]))
         arg = f if draw(st.booleans()) else ["mul", g_small(draw, True), f]
+        if name in Q.FUNCS2:
+            # dimensional argument in the first or in the last position of a two-argument function
+            other = ["n", draw(st.sampled_from(["1", "2", "1/2", "3"]))]
+            pair = [arg, other] if draw(st.booleans()) else [other, arg]
+            return replace_at(tree, p, _place(draw, "mul", n, ["fn", name, *pair])), "fn_arg_dim"
         return replace_at(tree, p, _place(draw, "mul", n, ["fn", name, arg])), "fn_arg_dim"
     if kind == "symbol":
         op = draw(st.sampled_from(["mul", "add"]))
